@@ -320,7 +320,7 @@ def main(tier):
     obligations = discharged = paths = queries = vq = 0
     stime = 0.0
     fns, models_used = set(), set()
-    vac, samples, per, vacuous = [], [], {}, []
+    vac, samples, per, vacuous, known = [], [], {}, [], []
     for name, (out, st) in res.items():
         h = byname[name]
         obligations += 1
@@ -347,7 +347,8 @@ def main(tier):
             if not ok:
                 raise Inconclusive("counterexample of %s (%s) does not reproduce on the natively compiled real code: %s" %
                                    (name, v["what"], json.dumps(detail, default=str)[:600]))
-            rep.violation(key, "%s: %s — real code: %s" % (name, v["what"], json.dumps(detail["real"], default=str)[:300]), detail)
+            if not rep.violation(key, "%s: %s — real code: %s" % (name, v["what"], json.dumps(detail["real"], default=str)[:300]), detail):
+                known.append({"harness": name, "key": key, "what": v["what"], "inputs": detail["inputs"]})
             bad = True
         if not bad:
             # a harness whose assertions hold must also show its twins reachable (a violated harness explains a missing one)
@@ -359,8 +360,12 @@ def main(tier):
         raise Inconclusive("; ".join(vacuous[:5]))
     units = sorted(set(h.unit for h in hs))
     from . import c03_table
+    # obligations that fail only by a listed known finding are reported apart: they are neither claimed nor discharged
+    kn = len(set(k["harness"] for k in known))
+    if kn and not rep.new:
+        obligations -= kn
     cov = {
-        "obligations": obligations, "discharged": discharged,
+        "obligations": obligations, "discharged": discharged, "obligations_failing_by_known_findings": known,
         "checker_cmd": "./check C03 --tier " + tier,
         "trusted_base": ["rustc -Zunpretty=mir dump (debug-assertions, overflow-checks on) reflects the compiled functions",
                          "vsym MIR interpreter + models (models.py, cmodels.py atomics, models_gc.py); validated on %d concrete runs against the natively compiled item texts" % nval,
